@@ -197,7 +197,7 @@ def build(spec, evreg):
     return created
 
 
-def check_structure(spec, circuit, created, evreg, ctx, where):
+def check_structure(spec, circuit, created, evreg, ctx, where, frozen=True):
     import edzed
     blocks = {b.name: b for b in circuit.getblocks()}
     # expected feeds relation (with inverter expansion)
@@ -231,6 +231,21 @@ def check_structure(spec, circuit, created, evreg, ctx, where):
         if blk.input_signature() != exp_sig:
             raise core.Violation('input-signature', f"{where}: {b['name']} signature "
                                  f"{blk.input_signature()} expected {exp_sig}")
+        # the returned descriptions are the caller's to analyse (pop the known items ...):
+        # whatever the caller does to them, the block keeps describing the same structure
+        ctx.count('descriptions_modified_by_caller')
+        try:
+            got = blk.check_signature({})
+        except Exception:       # pylint: disable=broad-except
+            got = blk.input_signature()
+        for victim in (got, blk.input_signature(), blk.get_conf().get('inputs')):
+            if isinstance(victim, dict):
+                victim.pop(next(iter(victim), None), None)
+                victim['vf_bogus'] = 99
+        if blk.input_signature() != exp_sig:
+            raise core.Violation('input-signature', f"{where}: {b['name']} signature is "
+                                 f"{blk.input_signature()} after a caller modified the returned "
+                                 f"dict; expected {exp_sig}")
         conf = blk.get_conf().get('inputs')
         if conf is None or set(conf) != set(exp_sig):
             raise core.Violation('get_conf-inputs', f"{where}: {b['name']} get_conf inputs {conf}")
@@ -350,7 +365,10 @@ def check_structure(spec, circuit, created, evreg, ctx, where):
                 raise core.Violation(
                     'filter-control-block-unresolved',
                     f"{where}: filter control block {e['filter'][1]!r} is {flt._ctrl_blk!r}")
-    # 7. frozen
+    # 7. frozen (probes create objects in the CURRENT circuit: skipped for a circuit that the
+    # harness has already replaced)
+    if not frozen:
+        return
     for what, fn in (
             ('new block', lambda: edzed.Input('late_block', initdef=0)),
             ('connect', lambda: next(b for b in blocks.values()
@@ -445,6 +463,10 @@ def run_spec(case, ctx):
                             f"references to {sname!r} created after an explicit finalize() resolved "
                             f"to {dest!r} / {late['flt']._ctrl_blk!r}")
             await sim.stop()
+            if ok:
+                # the connection data stay as they are when the simulation has stopped
+                ctx.count('after_stop_checks')
+                check_structure(spec, circuit, created, evreg, ctx, 'after the stop')
         _, _, exc = vloop.run(main)
         if isinstance(exc, core.Violation):
             raise exc
@@ -475,6 +497,9 @@ def run_spec(case, ctx):
             raise out['exc']
         if not out.get('started'):
             raise core.Violation('start-failed', f"valid acyclic spec did not start: {out['sim'].init_exc}")
+        ctx.count('after_stop_checks')
+        check_structure(spec, out['sim'].circuit, box['created'], evreg2, ctx, 'after the stop',
+                        frozen=False)
 
 
 # ---------------- invalid references ----------------
@@ -619,6 +644,20 @@ def invalid_cases():
         edzed.Input('a', initdef=0)
         edzed.FuncBlock('f', func=lambda x, y: 0).connect('a')
 
+    def and_named_input():
+        # And/Or/Xor take unnamed inputs only: a named one is a wrongly shaped input
+        edzed.Input('a', initdef=0)
+        edzed.Input('en', initdef=1)
+        edzed.And('g').connect('a', 'a', enable='en')
+
+    def xor_named_group():
+        edzed.Input('a', initdef=0)
+        edzed.Xor('g').connect(inputs=('a', 'a'))
+
+    def packed_funcblock_unknown_keyword():
+        edzed.Input('a', initdef=0)
+        edzed.FuncBlock('f', func=lambda args: len(args), unpack=False).connect('a', extra='a')
+
     def duplicate_name():
         edzed.Input('a', initdef=0)
         edzed.Input('a', initdef=0)
@@ -652,6 +691,22 @@ def invalid_cases():
         edzed.Input('a', initdef=0)
         edzed.ExtEvent('nosuch')
 
+    def ext_event_cblock_by_name():
+        edzed.Input('a', initdef=0)
+        edzed.Not('n').connect('a')
+        edzed.ExtEvent('n')
+
+    def ext_event_funcblock_by_name():
+        edzed.Input('a', initdef=0)
+        edzed.FuncBlock('both', func=lambda a, b: a and b).connect('a', 'a')
+        edzed.ExtEvent('both', 'put')
+
+    def ext_event_inverter_by_name():
+        edzed.Input('a', initdef=0)
+        edzed.And('g').connect('_not_a', 'a')
+        edzed.get_circuit().finalize()
+        edzed.ExtEvent('_not_a')
+
     return [(f.__name__, f) for f in (
         unknown_input, unknown_not, double_underscore_not, foreign_block, foreign_block_same_name,
         foreign_event_dest, event_dest_unknown,
@@ -659,9 +714,11 @@ def invalid_cases():
         cblock_name_add_output_then_ifnotinit, sblock_name_then_cblock_required, filter_ctrl_unknown, ifnotinit_cblock,
         not_unconnected, not_two_inputs, override_missing, override_group, override_empty_group,
         override_empty_list, custom_single_given_empty_group, custom_group_given_single,
-        custom_group_too_short, funcblock_mismatch,
+        custom_group_too_short, funcblock_mismatch, and_named_input, xor_named_group,
+        packed_funcblock_unknown_keyword,
         duplicate_name, duplicate_name_sc, connect_twice, connect_nothing, group_as_positional,
-        reserved_input_name, ext_event_cblock, ext_event_unknown)]
+        reserved_input_name, ext_event_cblock, ext_event_unknown, ext_event_cblock_by_name,
+        ext_event_funcblock_by_name, ext_event_inverter_by_name)]
 
 
 def run_invalid(name, fn, ctx):
